@@ -296,6 +296,16 @@ Definition gn_mono_family (f : gn_family) : bool :=
 (* ---------- running the i-th registry entry; executable class checks (used by the driver) ---------- *)
 Definition gn_run_idx (fams : list gn_family) (i n : nat) (d : gn_draws) : option (list Q) :=
   gn_run (nth i fams FNone) n d.
+(* comparison of two run results (used by the in-Coq evaluation shard of the thorough tier) *)
+Fixpoint gn_list_eqb (a b : list Q) : bool :=
+  match a, b with
+  | [], [] => true
+  | x :: a', y :: b' => Qeq_bool x y && gn_list_eqb a' b'
+  | _, _ => false
+  end.
+Definition gn_tab_eqb (a b : option (list Q)) : bool :=
+  match a, b with None, None => true | Some x, Some y => gn_list_eqb x y | _, _ => false end.
+
 Definition gn_sa_b (n : nat) (t : list Q) : bool :=
   forallb (fun A => forallb (fun B => if disjb A B then Qle_bool (gn_get t A + gn_get t B) (gn_get t (N.lor A B)) else true)
                             (alln n)) (alln n).
